@@ -7,7 +7,7 @@ from .. import env  # noqa: F401
 from .. import gen, build, mcase
 
 ID = "C06"
-CASES = {"quick": 2400, "thorough": 150000}
+CASES = {"quick": 8000, "thorough": 200000}
 MIN_CASES_PER_SHARD = 40
 CASE_TIMEOUT = 40
 RULE = ("one case = generated map x trace x first-order configuration without width (all families; noise, obs_noise_ne, length factor, cut-offs "
@@ -72,7 +72,7 @@ def check_case(ctx, case):
 
 
 TECHNIQUE = "runtime monitoring: differential monitor over sibling executions (non-emitting states off / on, one shared configuration)"
-LEVEL_TEXT = ("2.4k (quick) / 150k (thorough) pairs of real runs; the on-run must not match a shorter prefix, must not be empty alone, and for two "
+LEVEL_TEXT = ("{Q} (quick) / {T} (thorough) pairs of real runs; the on-run must not match a shorter prefix, must not be empty alone, and for two "
               "complete matches must reach at least the off-run's best probability; the fraction of on-runs whose best path really contains "
               "non-emitting states is measured and has a floor. Held-on-observed.")
 LEVEL_NOTE = "Trusted: nothing beyond the two executions. Only first-order, unpruned configurations, as the property states."
